@@ -358,7 +358,7 @@ META["C06"] = dict(
         "st.required.required-param-of-selected-class": g(30, 300), "st.required.required-dataclass-field": g(30, 300),
         "st.required.required-option-of-subcommand": g(20, 200), "st.required.required-option-of-subcommand-level2": g(10, 100),
         "st.channel.argv": g(25, 400),
-        "mon.parse_known_args_refused": g(20, 150),
+        "st.required.section-emptied": g(10, 100), "mon.parse_known_args_refused": g(20, 150),
     },
     assumptions=["a foreign key beside class_path/init_args (spec level) is not among the levels the statement lists and is not inserted"],
 )
